@@ -242,7 +242,21 @@ mod e2e {
     type Hold = (Arc<AtomicI64>, tokio::sync::watch::Receiver<bool>);
 
     #[allow(clippy::too_many_arguments)]
-    async fn pump<R: tokio::io::AsyncRead + Unpin, W: tokio::io::AsyncWrite + Unpin>(
+    /// how a relay direction lets go of its write half when the link dies by RST: a TCP write half must
+    /// be forgotten (dropping it sends a FIN first), an in-memory one is just dropped
+    trait LetGo {
+        fn let_go(self);
+    }
+    impl LetGo for tokio::io::WriteHalf<tokio::io::DuplexStream> {
+        fn let_go(self) {}
+    }
+    impl LetGo for tokio::net::tcp::OwnedWriteHalf {
+        fn let_go(self) {
+            self.forget()
+        }
+    }
+
+    async fn pump<R: tokio::io::AsyncRead + Unpin, W: tokio::io::AsyncWrite + Unpin + LetGo>(
         mut r: R,
         mut w: W,
         rst: Vec<std::os::fd::RawFd>,
@@ -314,6 +328,7 @@ mod e2e {
             for fd in rst {
                 tcpq::set_reset_on_close(fd);
             }
+            w.let_go();
         }
         // both halves are dropped here: the sessions see EOF / a broken pipe / a reset
     }
@@ -1351,6 +1366,7 @@ async fn main() {
 
     let tcp = args.u64("tcp", 0) == 1;
     TCP.store(tcp, std::sync::atomic::Ordering::Relaxed);
+    tcpq::STRICT.store(tcp, std::sync::atomic::Ordering::Relaxed);
     for f in args.str("replay-ops", "").split(',').filter(|f| !f.is_empty()) {
         replay_file(f, &mut log, &mut st, &mut world).await;
     }
